@@ -338,6 +338,8 @@ def elementwise(it, op, a, b):
         g = b.fn
         return NDArray(b.shape, dt, lambda *i: _scalar_op(it, op, a, g(*i)))
     f, g = a.fn, b.fn
+    if max(a.rank, b.rank) > 2 or any(conc(x) == 1 for x in a.shape + b.shape):
+        return _broadcast_general(it, op, a, b, dt)
     if a.rank == b.rank:
         for x, y in zip(a.shape, b.shape):
             same_dim(it, x, y)
@@ -349,6 +351,29 @@ def elementwise(it, op, a, b):
         same_dim(it, a.shape[0], b.shape[1])
         return NDArray(b.shape, dt, lambda i, k: _scalar_op(it, op, f(k), g(i, k)))
     raise Unsupported('broadcast of ranks %d and %d' % (a.rank, b.rank))
+
+
+def _broadcast_general(it, op, a, b, dt):
+    """numpy broadcasting in general: shapes aligned from the right; an axis of (concrete) extent 1 is repeated"""
+    r = max(a.rank, b.rank)
+    sa = (1,) * (r - a.rank) + tuple(a.shape)
+    sb = (1,) * (r - b.rank) + tuple(b.shape)
+    shape, pa, pb = [], [], []          # per output axis: does the operand follow the output index (True) or stay at 0 (False)
+    for x, y in zip(sa, sb):
+        if conc(x) == 1 and conc(y) != 1:
+            shape.append(y), pa.append(False), pb.append(True)
+        elif conc(y) == 1 and conc(x) != 1:
+            shape.append(x), pa.append(True), pb.append(False)
+        else:
+            same_dim(it, x, y)
+            shape.append(x), pa.append(True), pb.append(True)
+    f, g, ra, rb = a.fn, b.fn, a.rank, b.rank
+    zero = z3.IntVal(0)
+
+    def pick(idx, follow, rank):
+        full = [i if fl else zero for i, fl in zip(idx, follow)]
+        return full[len(full) - rank:]
+    return NDArray(tuple(shape), dt, lambda *i: _scalar_op(it, op, f(*pick(i, pa, ra)), g(*pick(i, pb, rb))))
 
 
 def _compare(it, op, l, r):
@@ -453,6 +478,12 @@ def reduce_bool(it, a, axis, which):
         sh = lambda i, ax_: i if conc(offs[ax_]) == 0 else z3.simplify(i + zi(offs[ax_]))
     if a.rank == 1:
         return scalar_bool(it, Qw(0, a.shape[0], lambda j: _truthy(dt, f(j)), lambda t: _truthy(dt, a.awin[0](t)) if a.awin else None))
+    if a.rank > 2:
+        if ax is None:
+            raise Unsupported('np.all/any over all axes of a rank-%d array' % a.rank)
+        ext = a.shape[ax]
+        rest = tuple(x for k_, x in enumerate(a.shape) if k_ != ax)
+        return NDArray(rest, 'bool', lambda *i: Q(ext, lambda t: _truthy(dt, f(*(list(i[:ax]) + [t] + list(i[ax:]))))))
     n, d = a.shape
     if ax is None:
         return scalar_bool(it, Q(n, lambda i: Q(d, lambda k: _truthy(dt, f(i, k)))))
@@ -678,6 +709,8 @@ def getitem(it, a, idx):
     f = a.fn
     if not isinstance(idx, tuple):
         idx = (idx,)
+    if any(x is None for x in idx) or a.rank > 2:
+        return _getitem_general(it, a, idx)
     if len(idx) > a.rank:
         raise PyRaise(it.make_exc('IndexError', ['too many indices for array']))
     if a.rank == 1:
@@ -714,6 +747,39 @@ def getitem(it, a, idx):
         r.win = (base, norm(z3.simplify(zi(rlo) + zi(s0[4]))), norm(z3.simplify(zi(clo) + zi(s1[4]))))
         r.awin = (r.win[0], (r.win[1], r.win[2]))
     return r
+
+
+def _getitem_general(it, a, idx):
+    """basic indexing of any rank: integers, unit-step slices and np.newaxis (None)"""
+    if sum(1 for x in idx if x is not None) > a.rank:
+        raise PyRaise(it.make_exc('IndexError', ['too many indices for array']))
+    f = a.fn
+    shape, plan, ax = [], [], 0        # plan per source axis: ('fixed', pos) | ('out', out position, offset)
+    for x in idx:
+        if x is None:
+            shape.append(1)
+            continue
+        s = _axis_select(it, x, a.shape[ax])
+        if s[0] == 'scalar':
+            plan.append(('fixed', s[1]))
+        else:
+            if s[4] is None:
+                raise Unsupported('array index inside a general (newaxis / rank > 2) subscript')
+            plan.append(('out', len(shape), zi(s[4])))
+            shape.append(s[1])
+        ax += 1
+    while ax < a.rank:
+        plan.append(('out', len(shape), z3.IntVal(0)))
+        shape.append(a.shape[ax])
+        ax += 1
+    if not shape:
+        return f(*[p_[1] for p_ in plan])
+    if len(shape) > 3:
+        raise Unsupported('arrays of rank > 3')
+
+    def fn(*i):
+        return f(*[p_[1] if p_[0] == 'fixed' else z3.simplify(i[p_[1]] + p_[2]) for p_ in plan])
+    return NDArray(tuple(shape), a.dtype, fn)
 
 
 def setitem(it, a, idx, v):
@@ -979,6 +1045,7 @@ for _pkg in ('numpy', 'jax.numpy'):
     EXTERNAL[_pkg + '.clip'] = Builtin('np.clip', _np_clip)
     EXTERNAL[_pkg + '.linspace'] = Builtin('np.linspace', _np_linspace_int)
     EXTERNAL[_pkg + '.inf'] = float('inf')
+    EXTERNAL[_pkg + '.newaxis'] = None
     EXTERNAL[_pkg + '.nan'] = float('nan')
     for _t in ('bool_', 'float32', 'float64', 'int32', 'int64'):
         EXTERNAL[_pkg + '.' + _t] = Builtin(_t, lambda it, args, kw: args[0])
@@ -1340,7 +1407,52 @@ def _named_elements(it, v):
     return v
 
 
+def range_as_symlist(it, r):
+    """list(range(start, stop, step)) with symbolic bounds and a symbolic step of known sign: an int array-list L of symbolic
+    length n with the LINEAR facts of an arithmetic progression (the product i*step is never formed):
+        n >= 0;  n == 0 <=> the range is empty;  L[0] == start;  L[i+1] == L[i] + step;  every element lies between start and stop;
+        the last element is the last one before stop   (so n == ceil((stop - start) / step)).
+    Ghost for contracts (Run.np_ranges): `tile_at(t)` -- consecutive elements tile the interval between the last and the first
+    element (a property of arithmetic progressions; instantiated explicitly by a contract at the index it needs)."""
+    run = it.run
+    if it.pure:
+        raise Unsupported('list(range(...)) with symbolic bounds in pure mode')
+    a, b, st = zi(r.lo), zi(r.hi), zi(r.step)
+    if implied(it, st < 0):
+        down = True
+    elif implied(it, st > 0):
+        down = False
+    else:
+        if it.truth(st == 0):
+            raise PyRaise(it.make_exc('ValueError', ['range() arg 3 must not be zero']))
+        down = it.truth(st < 0)
+    n = run.fresh('range_n', z3.IntSort())
+    arr = run.fresh('range_a', z3.ArraySort(z3.IntSort(), z3.IntSort()))
+    before = (lambda x: x > b) if down else (lambda x: x < b)          # x is still inside the range
+    run.assume(n >= 0)
+    run.assume((n == 0) == z3.Not(before(a)))
+    run.assume(z3.Implies(n > 0, z3.And(arr[0] == a, before(arr[n - 1]), z3.Not(before(arr[n - 1] + st)))))
+    i = z3.Int('i!rg%d' % next(_uid))
+    run.axiom(z3.ForAll([i], z3.Implies(z3.And(i >= 0, i < n - 1), arr[i + 1] == arr[i] + st), patterns=[arr[i]]))
+    run.axiom(z3.ForAll([i], z3.Implies(z3.And(i >= 0, i < n), z3.And(before(arr[i]), (arr[i] <= a) if down else (arr[i] >= a))), patterns=[arr[i]]))
+    L = SymList(n, arr, 'int')
+    wit = fresh_fn(run, 'range_tile', 1, z3.IntSort())
+    if down:
+        tile_at = lambda t: z3.Implies(z3.And(n > 0, arr[n - 1] <= t, t < arr[0]), z3.And(wit(t) >= 0, wit(t) < n - 1, arr[wit(t) + 1] <= t, t < arr[wit(t)]))
+    else:
+        tile_at = lambda t: z3.Implies(z3.And(n > 0, arr[0] <= t, t < arr[n - 1]), z3.And(wit(t) >= 0, wit(t) < n - 1, arr[wit(t)] <= t, t < arr[wit(t) + 1]))
+    run.__dict__.setdefault('np_ranges', []).append(dict(list=M.snapshot(L), start=a, stop=b, step=st, down=down, tile_at=tile_at))
+    run.assumed.add('list(range(a, b, s)) with symbolic arguments: an arithmetic progression given by linear facts (first element, constant difference, '
+                    'bounds, last element before b); consecutive elements tile the interval they span')
+    return L
+
+
 def _b_list(it, args, kw):
+    if args and isinstance(args[0], M.SymRange):
+        r = args[0]
+        if all(conc(x) is not None for x in (r.lo, r.hi, r.step)):
+            return list(range(conc(r.lo), conc(r.hi), conc(r.step)))
+        return range_as_symlist(it, r)
     if args and isinstance(args[0], NDArray):
         v = args[0]
         xs = elements(v)
@@ -1482,6 +1594,18 @@ def _subscript_list_by_mask(it, base, idx):
         run.__dict__.setdefault('np_filters', []).append(dict(n=cnt, arr=arr, src=(lambda j: sel(j)), cond=(lambda i: mf(i)), parent=M.snapshot(base),
                                                            complete_at=(lambda c: z3.Implies(z3.And(c >= 0, c < zi(base.n), mf(c)),
                                                                                             z3.And(rnk(c) >= 0, rnk(c) < cnt, sel(rnk(c)) == c)))))
+        return r
+    if isinstance(base, SymList) and isinstance(idx, slice) and idx.step in (None, 1) and idx.start not in (None, 0) \
+            and M.try_iterate(it, base) is None:
+        # xs[lo:hi] of an array-list of symbolic length: a view (element i = xs[lo + i]); python clips the bounds to [0, len]
+        lo = _clip_index(it, idx.start, norm(base.n), 0)
+        hi = _clip_index(it, idx.stop, norm(base.n), norm(base.n))
+        ln = z3.simplify(zi(hi) - zi(lo))
+        if not implied(it, ln >= 0):
+            ln = z3.If(ln < 0, 0, ln)
+        lz = zi(lo)
+        r = EnumList(norm(ln), lambda i: base.get(z3.simplify(zi(i) + lz)))
+        r.view_of = (base, lo)
         return r
     if isinstance(base, SymList) and not isinstance(base, EnumList) and isinstance(idx, NDArray):
         if idx.dtype == 'int' and idx.rank == 1 and not it.pure:
